@@ -31,7 +31,7 @@ def datasets(rng, N, n_coef):
     # over the snapshots although the set is not symmetric under u -> -u; and triples {u, -u/2, -u/2}
     raw = rng.normal(size=(need + 5, N, 3)) * 0.05
     out.append(("centred", raw - raw.mean(axis=0), rng.normal(size=(need + 5, N, 3))))
-    u_ = rng.normal(size=((need + 5) // 3 + 1, N, 3)) * 0.05
+    u_ = rng.normal(size=(need + 5, N, 3)) * 0.05       # need + 5 independent patterns (the copies add no rank for even orders)
     out.append(("zero-sum-triples", np.concatenate([u_, -u_ / 2, -u_ / 2]), rng.normal(size=(3 * len(u_), N, 3))))
     # the undisplaced supercell first (exact zeros, residual forces not zero), as finite-displacement workflows store it
     d_u = np.concatenate([np.zeros((1, N, 3)), rng.normal(size=(need + 4, N, 3)) * 0.05])
